@@ -18,18 +18,6 @@ type poison struct {
 	Wit func(p *payload) bool
 }
 
-func resultHasRange(p *payload) bool {
-	switch p.Part {
-	case "call", "field":
-		e := modelMember(p.Recv, p.Member, p.Args)
-		return (e.Mode == mValue || e.Mode == mEither) && containsKind(e.Val, "range")
-	case "idx-int", "idx-lit", "idx-dyn":
-		e := modelIndex(p.Recv, p.Args[0])
-		return e.Mode == mValue && containsKind(e.Val, "range")
-	}
-	return false
-}
-
 func keyPresent(p *payload) bool {
 	if len(p.Args) == 0 {
 		return false
@@ -127,20 +115,6 @@ var poisons = []poison{
 		What: "VM to_json / to_json_indent of a list or object containing a range panics in Go (the interpreter raises a JsonError)",
 		Match: func(p *payload) bool {
 			return p.Backend == "vm" && p.Part == "call" && strings.HasPrefix(p.Member, "to_json") && containsKind(p.Recv, "range")
-		},
-	},
-	{
-		KF: "KF-c18-tree-range-display", Tag: "tree:range-display",
-		Sig:  `^tree:(.+:println-mismatch|\[range\]\.(join|to_string):wrong-result)$`,
-		What: "interpreter ranges render as `{1}..{3}` (println, join, to_string of lists of ranges)",
-		Match: func(p *payload) bool {
-			if p.Backend != "tree" {
-				return false
-			}
-			if p.Print && resultHasRange(p) {
-				return true
-			}
-			return p.Part == "call" && (p.Member == "join" || p.Member == "to_string") && containsKind(p.Recv, "range")
 		},
 	},
 	{
